@@ -105,11 +105,12 @@ def do_op(chart, twin, op, other):
             elif f == "start-time":
                 chart.notes_per_second(inst, diff, timedelta(microseconds=1))
         elif k == "ts-at":
-            bpm.timestamp_at_tick(-1 if op[1] == "negative" else 777)
+            bpm.timestamp_at_tick({"negative": -1, "float": 576.75}.get(op[1], 777))
         elif k == "ts-at-hint":
             bpm.timestamp_at_tick(500, start_iteration_index=(5 if op[1] == "bad" else 1))
         elif k == "ts-no-opt":
-            bpm.timestamp_at_tick_no_optimize_return(10**6)
+            from fractions import Fraction
+            bpm.timestamp_at_tick_no_optimize_return({"whole": 480, "float": 480.5, "fraction": Fraction(1153, 2)}.get(op[1], 10**6))
         elif k == "str":
             str(chart)
         elif k == "repr":
@@ -297,6 +298,23 @@ def run_sequence(sid, ops, text, other, want=None):
                     except Exception as e:  # noqa: BLE001
                         return ("raise", type(e).__name__)
                 if ask(chart) != ask(parse(text, want)):
+                    probe_same = False
+            # ... and so must the tick-to-time queries themselves, for whole ticks and for the ticks between them
+            from fractions import Fraction
+            tprobes = [480, 576, 480.5, 576.5, 777, 500, 0, 10**6, Fraction(1153, 2), 481, 576.75, True]
+            fresh_bpm = parse(text, want).sync_track.bpm_events
+            for off in (0, 5):
+                t_ = tprobes[(k * 7 + len(ops) + off + sum(len(str(o)) for o in ops[:k + 1])) % len(tprobes)]
+
+                def askt(b):
+                    out = []
+                    for f_ in (b.timestamp_at_tick_no_optimize_return, b.timestamp_at_tick):
+                        try:
+                            out.append(("value", str(f_(t_))))
+                        except Exception as e:  # noqa: BLE001
+                            out.append(("raise", type(e).__name__))
+                    return out
+                if askt(chart.sync_track.bpm_events) != askt(fresh_bpm):
                     probe_same = False
         except Exception:  # noqa: BLE001
             probe_same = False
